@@ -196,12 +196,61 @@ theorem pp_ok_representable (a : PPArgs) (lay : Layout) (bpg : Nat) (hasLen : Bo
   exact ⟨ppGroups_representable a.lsb0 bpg m a.t1.fmt data hm0 ok1,
     fun t2 ht2 => ppGroups_representable a.lsb0 bpg m t2.fmt data hm0 (h2 t2 ht2).2⟩
 
+/-! ### `Array.pp` is `Bits.pp` of the Array's data -/
+
+/-- Whatever `Array.pp(fmt)` prints for bin / oct / hex formats, `Bits.pp` prints for the Array's data with both tokens
+    given the token length explicitly and a blank separator — provided that length is a whole number of digits of each
+    format (otherwise `Array.pp` can only succeed by printing no line at all).  So `pp_group_atomic`,
+    `pp_digits_complete_*`, `pp_trailing*`, `pp_width`, `pp_no_escape_when_no_color` hold for `Array.pp` too: in
+    particular the groups printed are exactly those of `self.data` minus the reported trailing bits, whatever the item
+    size of the Array's own dtype. -/
+theorem arrayPP_eq_pp (data : Bits) (itemsize : Nat) (t1 : Tok) (t2 : Option Tok) (width : Nat)
+    (showOffset lsb0 colour : Bool) (lay : Layout)
+    (h : arrayPP data itemsize t1 t2 width showOffset lsb0 colour = .ok lay)
+    (h1 : arrayTokenLength itemsize t1 t2 % t1.fmt.bpc = 0)
+    (h2 : ∀ u, t2 = some u → arrayTokenLength itemsize t1 t2 % u.fmt.bpc = 0) :
+    pp ⟨data, ⟨t1.fmt, some (arrayTokenLength itemsize t1 t2)⟩,
+        t2.map (fun u => ⟨u.fmt, some (arrayTokenLength itemsize t1 t2)⟩), width, [' '], showOffset, lsb0, colour⟩
+      = .ok lay := by
+  have key : ∀ (p : Prop) [Decidable p] (X : Except Err Layout),
+      (if p then Except.error Err.value else X) = .ok lay → ¬ p ∧ X = .ok lay := by
+    intro p _ X hh
+    by_cases hp : p
+    · rw [if_pos hp] at hh; exact absurd hh (by simp)
+    · rw [if_neg hp] at hh; exact ⟨hp, hh⟩
+  unfold arrayPP at h
+  split at h
+  · exact absurd h (by simp)
+  · simp only at h
+    split at h
+    · exact absurd h (by simp)
+    · obtain ⟨-, h⟩ := key _ _ h
+      obtain ⟨htl0, h⟩ := key _ _ h
+      generalize arrayTokenLength itemsize t1 t2 = tl at h1 h2 h htl0
+      have hpt : processTokens ⟨t1.fmt, some tl⟩ (t2.map (fun u => ⟨u.fmt, some tl⟩)) = .ok (tl, true) := by
+        unfold processTokens mkDtype
+        simp only [h1, ne_eq, not_true_eq_false, if_false]
+        cases t2 with
+        | none => rfl
+        | some u =>
+          have := h2 u rfl
+          simp only [Option.map_some, this, not_true_eq_false, if_false]
+      unfold pp
+      simp only [hpt, trailingLen, htl0, ne_eq, not_false_eq_true, and_self, if_true, cfgOf]
+      have hmap : Option.map (fun x => x.fmt) (Option.map (fun u => ({ fmt := u.fmt, len := some tl } : Tok)) t2)
+          = Option.map (fun x => x.fmt) t2 := by cases t2 <;> rfl
+      rw [hmap]
+      exact h
+
 /-! ### non-vacuity -/
 
 example : processTokens ⟨.bin, some 3⟩ (some ⟨.oct, some 3⟩) = .ok (3, true) := by decide
 example : (pp ⟨[true, true, true, false, false, false, true], ⟨.bin, some 3⟩, some ⟨.oct, some 3⟩, 80, [' '],
               true, false, false⟩).map (fun lay => (lay.lines.map (·.groups1), lay.lines.map (·.groups2), lay.trailing))
     = .ok ([[['1', '1', '1'], ['0', '0', '0']]], [some [['7'], ['0']]], some ['0', 'b', '1']) := by decide
+example : (arrayPP (List.replicate 48 true) 8 ⟨.hex, some 16⟩ none 60 true false false).map
+    (fun lay => (lay.lines.map (·.groups1), lay.trailing))
+    = .ok ([[['f', 'f', 'f', 'f'], ['f', 'f', 'f', 'f'], ['f', 'f', 'f', 'f']]], none) := by decide
 example : groupsOf true 3 [true, true, true, false, false, false, true]
     = [[false, false, true], [true, true, false], [true]] := by decide
 
